@@ -30,6 +30,7 @@ pub(crate) fn entity_created_on_client(
 
 pub(crate) fn entity_parented_on_client(
     mut client: ResMut<RenetClient>,
+    mut track: ResMut<SyncTrackerRes>,
     query: Query<(&Parent, &SyncEntity), Changed<Parent>>,
     query_parent: Query<(Entity, &SyncEntity), With<Children>>,
 ) {
@@ -37,6 +38,9 @@ pub(crate) fn entity_parented_on_client(
         let Ok(parent) = query_parent.get(p.get()) else {
             continue;
         };
+        if track.skip_network_parent_change(sup.uuid, parent.1.uuid) {
+            continue;
+        }
         client.send_message(
             DefaultChannel::ReliableOrdered,
             bincode::serialize(&Message::EntityParented {
